@@ -24,7 +24,7 @@ for pid in ids:
         "engine": "gtmon",
         "level_claimed": {"category": "exploration", "text": c["text"],
                           "design_ref": "DESIGN.md section 5, %s" % pid},
-        "level_note": c["note"] + " Input classes, histories and monitors added after the seven rounds of independently seeded changes (memory layouts, exact special positions, extreme scales, live relatives, size thresholds, naming and dtype chains ...) are listed per property in DESIGN.md 9.4 and in the docstring / ASSUMPTIONS of gtmon/props/%s.py; the evidence file lists the class signatures actually seen." % pid.lower(),
+        "level_note": c["note"] + " Input classes, histories and monitors added after the eight rounds of independently seeded changes (memory layouts, exact special positions, extreme scales, live relatives, size thresholds, naming and dtype chains ...) are listed per property in DESIGN.md 9.4 and in the docstring / ASSUMPTIONS of gtmon/props/%s.py; the evidence file lists the class signatures actually seen." % pid.lower(),
         "technique": c["technique"],
     })
 na = [{"property_id": pid, "reason": NOT_APPLICABLE.get(pid, "check not built yet in this round; no claim is made")}
